@@ -119,8 +119,9 @@ prop(
     module="Aquatic.Props.C03",
     technique="Lean 4 proof (canonicalisation, family agreement, last-value-of-last-header selection) + differential check of CanonicalSocketAddr::new, IpVersion::canonical_from_ip, aquatic_http parse_request with generated header layouts, and UDP announces with varying in-request ip",
     runs=[dict(harness="addr", driver="addr", quick=dict(cases=3000), thorough=dict(cases=200000)),
+          dict(harness="httpnet", driver="store", quick=dict(cases=6), thorough=dict(cases=60)),
           dict(harness="udpstore", driver="store", quick=dict(cases=200, maxops=40), thorough=dict(cases=5000, maxops=100))],
-    nontrivial=["v4-mapped", "several-occurrences", "comma-list", "header-absent", "re-announce", "small->large"],
+    nontrivial=["v4-mapped", "several-occurrences", "comma-list", "header-absent", "re-announce", "small->large", "proxy=true"],
     level_text="Theorems: canonical is idempotent, maps exactly the ::ffff:a.b.c.d addresses to a.b.c.d and never yields a mapped address; the WebTorrent family choice equals the family of the canonical address (so a host seen through a dual-stack socket and through plain IPv4 is the same IPv4 peer in all three trackers); in reverse-proxy mode the text handed to the IP parser is the trimmed last comma-separated piece of the last occurrence of the configured header, an absent header is an error. The stores' key is (canonical source ip, request port) by construction of the models, which the correspondence runs confirm on the real code with a varying in-request ip field.",
     level_note="Partial: the socket configuration clause (ipv4-only / ipv6-only / dual-stack sockets, TCP peer address) is exercised by the socket-level runs, not proved. Trusted: std's IpAddr text parser (used as the oracle for a fixed pool of texts), httparse; str::trim modelled for ASCII white space only.",
     design_ref="§8 C03",
